@@ -635,7 +635,12 @@ pub fn gen_case(seed: u64, p: &Profile) -> Case {
                 opts[ix].rng_seed = rng.gen_range(0..1u64 << 40);
                 opts[ix].threads = pick(&mut rng, &p.threads);
             }
-            ops.push(Op::Build { ix, opts: opts[ix].clone() });
+            let mut o = opts[ix].clone();
+            // automatic tree counts grow with the dimension (~min(n, dims) trees): keep big live sets affordable
+            if o.n_trees.is_none() && live[ix].len() > 200 && model.ix[ix].dims > 16 {
+                o.n_trees = Some(3);
+            }
+            ops.push(Op::Build { ix, opts: o });
         }
         ops.push(if rng.gen_bool(p.p_abort) { Op::Abort } else { Op::Commit });
     }
